@@ -7,7 +7,7 @@
 
    Bytes are N. A name is a non-empty byte list without '/'; a (physical) path
    is the list of names from the root. *)
-From Coq Require Import NArith List Bool.
+From Coq Require Import NArith List Bool String Ascii.
 Import ListNotations.
 Local Open Scope N_scope.
 
@@ -319,3 +319,246 @@ Definition pc_nonul_names (root : pc_node) : Prop :=
 Definition pc_hexdigit (n : N) : N := if n <? 10 then 48 + n else 55 + n.
 Definition pc_enc_byte (b : N) : list N := [37; pc_hexdigit (b / 16); pc_hexdigit (b mod 16)].
 Definition pc_enc (s : list N) : list N := flat_map pc_enc_byte s.
+
+(* ================================================================ the file system as a STATE
+   The unit runs for a long time; the directory tree changes under it (the
+   `current -> 2024-10-01` link is re-pointed, a directory is moved away and a
+   new one put in its place, files and links come and go). Processor::new only
+   STORES the configured update_path text; Processor::queue resolves it on every
+   request, in the tree as it is then. A history is a list of events: a change
+   of the tree, a (re)build of the processor with an update_path, a request. *)
+
+Inductive pc_kind := KDir | KFile | KLink (t : list N).
+
+(* changes of the tree; every path is a PHYSICAL path from the root (real
+   directory entries only, as [pc_descend] follows them) *)
+Inductive pc_fsop :=
+| OCreate (p : pc_path) (k : pc_kind)     (* mkdir / creat / symlink *)
+| ORemove (p : pc_path)                   (* unlink, or remove a directory with all below it *)
+| ORename (p q : pc_path)                 (* rename(2) onto a name that does not exist *)
+| ORepoint (p : pc_path) (t : list N).    (* replace the symbolic link at p by one with target t *)
+
+(* what a file system accepts as a name / a link target *)
+Definition pc_name_valid (c : pc_name) : bool :=
+  pc_nonempty c && negb (existsb (N.eqb c_slash) c) && negb (existsb (N.eqb 0) c)
+  && negb (pc_is_dot c) && negb (pc_is_dotdot c).
+Definition pc_path_valid (p : pc_path) : bool :=
+  match p with [] => false | _ => forallb pc_name_valid p end.
+Definition pc_target_valid (t : list N) : bool := pc_nonempty t && negb (existsb (N.eqb 0) t).
+Definition pc_kind_valid (k : pc_kind) : bool := match k with KLink t => pc_target_valid t | _ => true end.
+Definition pc_node_of_kind (k : pc_kind) : pc_node :=
+  match k with KDir => PDir [] | KFile => PFile | KLink t => PLink t end.
+
+(* set / delete one directory entry (the first with that name, which is the one [pc_assoc] sees) *)
+Fixpoint pc_put (c : pc_name) (x : pc_node) (es : list (pc_name * pc_node)) : list (pc_name * pc_node) :=
+  match es with
+  | [] => [(c, x)]
+  | (k, n) :: r => if pc_bytes_eqb k c then (k, x) :: r else (k, n) :: pc_put c x r
+  end.
+Fixpoint pc_del (c : pc_name) (es : list (pc_name * pc_node)) : list (pc_name * pc_node) :=
+  match es with
+  | [] => []
+  | (k, n) :: r => if pc_bytes_eqb k c then pc_del c r else (k, n) :: pc_del c r
+  end.
+
+(* the tree with the node at the physical path p set to x (Some) or removed
+   (None); unchanged when the way to p's parent does not exist *)
+Fixpoint pc_update (p : pc_path) (v : option pc_node) (n : pc_node) {struct p} : pc_node :=
+  match p with
+  | [] => match v with Some x => x | None => n end
+  | c :: r =>
+    match n with
+    | PDir es =>
+      match r with
+      | [] => PDir (match v with Some x => pc_put c x es | None => pc_del c es end)
+      | _ => match pc_assoc c es with
+             | Some m => PDir (pc_put c (pc_update r v m) es)
+             | None => n
+             end
+      end
+    | _ => n
+    end
+  end.
+
+Definition pc_parent_is_dir (fs : pc_node) (p : pc_path) : bool :=
+  match pc_descend fs (removelast p) with Some (PDir _) => true | _ => false end.
+Definition pc_exists (fs : pc_node) (p : pc_path) : bool :=
+  match pc_descend fs p with Some _ => true | None => false end.
+Fixpoint pc_is_prefix (a b : pc_path) : bool :=
+  match a, b with
+  | [], _ => true
+  | x :: a', y :: b' => pc_bytes_eqb x y && pc_is_prefix a' b'
+  | _ :: _, [] => false
+  end.
+
+(* An operation that the file system would refuse (EEXIST, ENOENT, ENOTDIR,
+   EINVAL: parent missing or not a real directory, name taken, name absent,
+   a directory moved into itself, not a link) leaves the tree as it is. *)
+Definition pc_apply (o : pc_fsop) (fs : pc_node) : pc_node :=
+  match o with
+  | OCreate p k =>
+    if pc_path_valid p && pc_kind_valid k && pc_parent_is_dir fs p && negb (pc_exists fs p)
+    then pc_update p (Some (pc_node_of_kind k)) fs else fs
+  | ORemove p =>
+    if pc_path_valid p && pc_exists fs p then pc_update p None fs else fs
+  | ORename p q =>
+    if pc_path_valid p && pc_path_valid q && negb (pc_is_prefix p q)
+       && pc_parent_is_dir fs q && negb (pc_exists fs q)
+    then match pc_descend fs p with
+         | Some n => pc_update q (Some n) (pc_update p None fs)
+         | None => fs
+         end
+    else fs
+  | ORepoint p t =>
+    if pc_path_valid p && pc_target_valid t
+    then match pc_descend fs p with
+         | Some (PLink _) => pc_update p (Some (PLink t)) fs
+         | _ => fs
+         end
+    else fs
+  end.
+
+Inductive pc_ev :=
+| EFs (o : pc_fsop)                   (* the tree changes *)
+| ENew (upd : option (list N))        (* Processor::new: the unit is (re)started with this update_path *)
+| EReq (rq : pc_req).                 (* one HTTP request *)
+
+(* the tree, and what the processor holds: the update_path TEXT as configured *)
+Definition pc_state := (pc_node * option (list N))%type.
+
+(* One request is ONE step: both canonicalize calls of Processor::queue, and the
+   look the observation takes at the entry, see the same tree. A change that
+   lands between them (the time-of-check/time-of-use window inside a request)
+   is outside this model. *)
+Definition pc_step (cwd : pc_path) (api : list N) (s : pc_state) (e : pc_ev)
+  : pc_state * option (option (N * list pc_path)) :=
+  match e with
+  | EFs o => ((pc_apply o (fst s), snd s), None)
+  | ENew u => ((fst s, u), None)
+  | EReq rq => (s, Some (pc_handle (fst s) cwd api (snd s) rq))
+  end.
+
+(* the answers to the requests of a history, in order *)
+Fixpoint pc_run (cwd : pc_path) (api : list N) (s : pc_state) (evs : list pc_ev)
+  : list (option (N * list pc_path)) :=
+  match evs with
+  | [] => []
+  | e :: r =>
+    match pc_step cwd api s e with
+    | (s', Some a) => a :: pc_run cwd api s' r
+    | (s', None) => pc_run cwd api s' r
+    end
+  end.
+
+(* the state a history leads to (requests do not change it) *)
+Fixpoint pc_after (s : pc_state) (evs : list pc_ev) : pc_state :=
+  match evs with
+  | [] => s
+  | EFs o :: r => pc_after (pc_apply o (fst s), snd s) r
+  | ENew u :: r => pc_after (fst s, u) r
+  | EReq _ :: r => pc_after s r
+  end.
+
+Fixpoint pc_requests (evs : list pc_ev) : nat :=
+  match evs with
+  | [] => O
+  | EReq _ :: r => S (pc_requests r)
+  | _ :: r => pc_requests r
+  end.
+
+(* The model of realpath starts relative names at [cwd] and takes for granted
+   that it is a directory: the working directory of the process and its
+   ancestors are not renamed, removed or replaced while the unit runs. *)
+Definition pc_op_spares (cwd : pc_path) (o : pc_fsop) : Prop :=
+  match o with
+  | OCreate p _ | ORemove p | ORepoint p _ => pc_is_prefix p cwd = false
+  | ORename p q => pc_is_prefix p cwd = false /\ pc_is_prefix q cwd = false
+  end.
+Definition pc_ev_spares (cwd : pc_path) (e : pc_ev) : Prop :=
+  match e with EFs o => pc_op_spares cwd o | _ => True end.
+
+(* a request that is addressed to the queue endpoint *)
+Definition pc_to_queue (api : list N) (rq : pc_req) : Prop :=
+  rq_get rq = true /\
+  exists action rest, pc_strip_prefix api (pc_pct (rq_path rq)) = Some action /\
+                      pc_strip_prefix pc_queue_kw action = Some rest.
+
+Definition pc_status (m : pc_mode) : N := match m with MOk | MSilent => 200 | MErr | MDrop => 400 end.
+
+(* ---------------------------------------------------------------- the counterfactual: resolve ONCE
+   A processor that canonicalises update_path when it is built and afterwards
+   joins every name onto, and checks it against, that stored resolution. (If the
+   path did not resolve when the processor was built, it refuses everything.)
+   Not the code that exists: it is here to be refuted. *)
+Definition pc_decide_once (root : pc_node) (cwd : pc_path) (stored : option (pc_err + pc_path)) (prm : pc_param) : pc_outcome :=
+  match stored with
+  | None => PReject RNoDir
+  | Some (inl e) => PReject (RBadDir e)
+  | Some (inr dir) =>
+    match pc_canon root cwd (pc_render dir) with     (* `path.is_dir()` on the stored path *)
+    | inl e => PReject (RBadDir e)
+    | inr now =>
+      match pc_descend root now with
+      | Some (PDir _) =>
+        match prm with
+        | PNone | PFamily => PReject RBadParam
+        | PExact f =>
+          if pc_is_abs f then PReject RNotRelative
+          else match pc_canon root cwd (pc_push (pc_render dir) f) with
+               | inl e => PReject (RBadFile e)
+               | inr full =>
+                 if existsb (fun a => pc_path_eqb a dir) (pc_ancestors full)
+                 then PAccept full else PReject ROutside
+               end
+        end
+      | _ => PReject (RBadDir ENOTDIR)
+      end
+    end
+  end.
+
+Definition pc_handle_once (root : pc_node) (cwd : pc_path) (api : list N) (stored : option (pc_err + pc_path)) (rq : pc_req)
+  : option (N * list pc_path) :=
+  if negb (rq_get rq) then None
+  else match pc_strip_prefix api (pc_pct (rq_path rq)) with
+       | None => None
+       | Some action =>
+         match pc_strip_prefix pc_queue_kw action with
+         | Some _ =>
+           Some (match pc_decide_once root cwd stored (pc_get_file (rq_query rq)) with
+                 | PReject _ => (400, [])
+                 | PAccept full => (pc_status (rq_mode rq), [full])
+                 end)
+         | None => None
+         end
+       end.
+
+Definition pc_new_once (root : pc_node) (cwd : pc_path) (upd : option (list N)) : option (pc_err + pc_path) :=
+  match upd with None => None | Some d => Some (pc_canon root cwd d) end.
+
+Fixpoint pc_run_once (cwd : pc_path) (api : list N) (fs : pc_node) (stored : option (pc_err + pc_path)) (evs : list pc_ev)
+  : list (option (N * list pc_path)) :=
+  match evs with
+  | [] => []
+  | EFs o :: r => pc_run_once cwd api (pc_apply o fs) stored r
+  | ENew u :: r => pc_run_once cwd api fs (pc_new_once fs cwd u) r
+  | EReq rq :: r => pc_handle_once fs cwd api stored rq :: pc_run_once cwd api fs stored r
+  end.
+
+(* ---------------------------------------------------------------- the witness: `current -> day1` re-pointed to `day2`
+   /day1/one.mrt, /day2/two.mrt, /current -> day1; update_path = /current. *)
+Definition pc_b (s : string) : list N := map N_of_ascii (list_ascii_of_string s).
+
+Definition pc_wit_fs : pc_node :=
+  PDir [(pc_b "day1", PDir [(pc_b "one.mrt", PFile)]);
+        (pc_b "day2", PDir [(pc_b "two.mrt", PFile)]);
+        (pc_b "current", PLink (pc_b "day1"))].
+Definition pc_wit_api : list N := pc_b "/mrt/u/".
+Definition pc_wit_upd : option (list N) := Some (pc_b "/current").
+Definition pc_wit_rq (q : string) : pc_req := MkReq true (pc_b "/mrt/u/queue") (Some (pc_b q)) MOk.
+Definition pc_wit_one : pc_req := pc_wit_rq "file=one.mrt".
+Definition pc_wit_day1_one : pc_path := [pc_b "day1"; pc_b "one.mrt"].
+Definition pc_wit_day2 : pc_path := [pc_b "day2"].
+Definition pc_wit_pre : list pc_ev :=
+  [EReq (pc_wit_rq "file=one.mrt"); EReq (pc_wit_rq "file=two.mrt"); EFs (ORepoint [pc_b "current"] (pc_b "day2"))].
+Definition pc_wit_post : list pc_ev :=
+  [EReq (pc_wit_rq "file=../day1/one.mrt"); EReq (pc_wit_rq "file=two.mrt")].
